@@ -355,6 +355,10 @@ func finalDumpsDiffer(rr *RunResult) string {
 }
 
 func divergeMessage(d *divergence) string {
+	if d.SameInstant {
+		return fmt.Sprintf("nodes %d and %d have both applied the log up to index %d and, looked at at the same instant and leaving out keys within one second after a deadline, hold different keyspaces (step %d; %s; - node %d, + node %d):\n%s",
+			d.NodeA, d.NodeB, d.Index, d.Step, d.Note, d.NodeA, d.NodeB, diffDumps(d.DumpA, d.DumpB))
+	}
 	if d.NodeA == d.NodeB {
 		return fmt.Sprintf("node %d, restarted, has applied the log up to index %d again but holds a different keyspace than it held at that index before it was killed (step %d; - before, + after):\n%s",
 			d.NodeA, d.Index, d.Step, diffDumps(d.DumpA, d.DumpB))
@@ -370,6 +374,9 @@ func judgeC07(sc *Scenario, rr *RunResult) (string, string) {
 	}
 	if m := noReplyFaultFree(sc, rr); m != "" {
 		return p + "/no-reply/fault-free", m
+	}
+	if sig, m := ttlJudge(p, sc, rr); sig != "" {
+		return sig, m
 	}
 	lr := checkLinearizable(rr, 5*time.Second)
 	rr.Probes["porcupine-ops"] += int64(lr.Ops)
@@ -475,6 +482,9 @@ func judgeC08(sc *Scenario, rr *RunResult) (string, string) {
 	if m := noReplyFaultFree(sc, rr); m != "" {
 		return p + "/no-reply/fault-free", m
 	}
+	if sig, m := ttlJudge(p, sc, rr); sig != "" {
+		return sig, m
+	}
 	lr := checkLinearizable(rr, 5*time.Second)
 	rr.Probes["porcupine-ops"] += int64(lr.Ops)
 	if lr.Unknown {
@@ -503,7 +513,16 @@ func judgeC14(sc *Scenario, rr *RunResult) (string, string) {
 	c := rr.Clients[0]
 	cut := false // a command went unanswered: everything after it is undetermined
 	lastClass := ""
-	classes := taintedClasses(sc.Clients[0].Cmds)
+	var real []Cmd
+	for _, cmd := range sc.Clients[0].Cmds {
+		if cmd.SleepMS == 0 {
+			real = append(real, cmd)
+		}
+	}
+	classes := taintedClasses(real)
+	if sig, m := ttlJudge(p, sc, rr); sig != "" {
+		return sig, m
+	}
 	classOf := func(i int, op *OpRec) string {
 		if i < len(classes) {
 			return classes[i]
@@ -522,6 +541,9 @@ func judgeC14(sc *Scenario, rr *RunResult) (string, string) {
 			break
 		}
 		name := strings.ToLower(string(op.Args[0]))
+		if touchesTTLKey(op.Args) || (sc.Knobs.TTL && name == "keys") {
+			continue // the reference ran at other instants: judged by ttlJudge instead
+		}
 		if !sameReply(name, op.Reply, rr.RefReplies[i]) {
 			return p + "/reply-differs/" + classOf(i, op), fmt.Sprintf("command #%d %s: standalone replied %s, the cluster (node %d of %d) replied %s",
 				i, cmdString(op.Args), rr.RefReplies[i].String(), op.Node, sc.Knobs.Nodes, op.Reply.String())
@@ -599,4 +621,20 @@ func canonReply(args []B, v rd.Value) string {
 		}
 	}
 	return v.String()
+}
+
+// ttlJudge: replies of commands on deadline-carrying keys (ttl.go).
+func ttlJudge(p string, sc *Scenario, rr *RunResult) (string, string) {
+	if !sc.Knobs.TTL {
+		return "", ""
+	}
+	msg, op := ttlReplies(rr)
+	if msg == "" {
+		return "", ""
+	}
+	cls := "ttl-command"
+	if op != nil && op.Node >= 1 && op.Node <= len(rr.Nodes) && rr.Nodes[op.Node-1].restartAfterTTL {
+		cls = "ttl-command-replayed-at-restart"
+	}
+	return p + "/reply-outside-deadline-window/" + cls, msg
 }
